@@ -111,7 +111,36 @@ func runC10(c *Ctx) {
 						}
 					}
 				}
-				if cc != nil && cc.Call.StaticCallee() == consume && ci == 0 && v.High == nil && okFact {
+				// buff[:0] where n == len(buff): the same as buff[n:] (empty), the array is kept
+				drained := false
+				if v.Low == nil && v.High != nil {
+					if k, isK := constInt(v.High); isK && k == 0 {
+						for _, f := range w.factsAt(in) {
+							if f.Op != "==" || !f.Truth {
+								continue
+							}
+							for _, pair := range [][2]ssa.Value{{f.X, f.Y}, {f.Y, f.X}} {
+								nc, ni := callOf(stripIntConv(pair[0]))
+								if nc != nil && nc.Call.StaticCallee() == consume && ni == 0 {
+									if t := termOf(pair[1]); t.Len && !t.Cap {
+										if _, fl, isL := fieldLoad(w.resolveLoad(t.V)); isL && fl == buff {
+											for _, f2 := range w.factsAt(in) {
+												if x, isNil, isNF := nilFact(f2); isNF && isNil {
+													if fc, fi := callOf(x); fc == nc && fi == 1 {
+														drained = true
+													}
+												}
+											}
+										}
+									}
+								}
+							}
+						}
+					}
+				}
+				if drained {
+					c.OK("C10.3", fname(readFrom), "advance", w.instrPos(in), "buff = buff[:0] on the edge n == len(buff) of the nil-error edge: the frame was the whole buffer")
+				} else if cc != nil && cc.Call.StaticCallee() == consume && ci == 0 && v.High == nil && okFact {
 					c.OK("C10.3", fname(readFrom), "advance", w.instrPos(in), "buff = buff[n:] only on the nil-error edge of consumeSingleTURNFrame")
 				} else {
 					c.Bad("C10.3", fname(readFrom), "advance", w.instrPos(in), "the reassembly buffer is cut other than by the size of a complete frame on the success edge")
